@@ -62,7 +62,8 @@ type streamState struct {
 	openInv  int // commits completed when Watch was invoked
 	openRet  int // commits completed when Watch returned
 	startTok bson.Raw
-	startEv  bson.D // the delivered event whose token startTok is
+	startEv  bson.D // the delivered event whose token startTok is (or whose cluster time the stream starts at)
+	startAt  bool   // opened with StartAtOperationTime = cluster time of startEv (inclusive)
 	events   []bson.D
 	tokens   []bson.Raw
 	ended    string // "", closed, invalidated, lost, error:<..>
@@ -676,6 +677,21 @@ func (a *actor) watch(op *Op) *CallRec {
 				o.SetResumeAfter(tok)
 			} else {
 				o.SetStartAfter(tok)
+			}
+		}
+		if op.Start == "at" {
+			// start at the cluster time of the last event this actor has seen: that event is delivered again
+			for i := len(a.streams) - 1; i >= 0 && st.startEv == nil; i-- {
+				for n := len(a.streams[i].events) - 1; n >= 0; n-- {
+					if model.Get(a.streams[i].events[n], "operationType") == "invalidate" {
+						continue // (synthetic, not part of the change log)
+					}
+					if ts, ok := model.Get(a.streams[i].events[n], "clusterTime").(primitive.Timestamp); ok {
+						st.startEv, st.startAt = a.streams[i].events[n], true
+						o.SetStartAtOperationTime(&ts)
+						break
+					}
+				}
 			}
 		}
 		st.openInv = len(e.commits)
